@@ -26,7 +26,7 @@ def _p1_jobs(tier, seed):
 
 @harness("c03.focus", props=["C03", "C05"], jobs=_p1_jobs,
          covers=["dead0", "dead1", "dead2", "all_dead", "dead_adjacent", "dead_separated",
-                 "dead_first", "dead_last", "dup_target", "self_loop", "kind_P1", "kind_PR", "focus_final"],
+                 "dead_first", "dead_last", "dup_target", "self_loop", "kind_P1", "kind_PR", "focus_final", "zero_prob_dead"],
          bounds="focus node with K<=4 (quick K<=3) transitions in an arbitrary game: successor indices: itself, a Player 2 neighbour, or any of K "
                 "interchangeable neighbours (all coincidence patterns); all reach probabilities in [0,1]; all transition "
                 "probabilities >0 summing to 1; P1 labels distinct or drawn from a 2-letter alphabet",
@@ -58,7 +58,9 @@ def c03_focus(sp, K, kind, s0=None, dup_labels=False):
             labels = ["a%d" % i for i in range(K)]
         orig = [(labels[i], succ[i]) for i in range(K)]
     else:
-        ps = probs(sp, "p", K)
+        # transition probabilities >= 0 summing to 1 (a probability-0 transition is legal input)
+        ps = [sp.real("p%d" % i, 0, None) for i in range(K)]
+        sp.assume(sp.eq(vsum(ps), 1))
         orig = [(ps[i], succ[i]) for i in range(K)]
     focus_list = list(orig)
     # the node may itself be a (non-absorbing) final state
@@ -116,12 +118,15 @@ def c03_focus(sp, K, kind, s0=None, dup_labels=False):
         sp.prove(tr[1] == succ[i], "survivor order/target")
         if kind == P1:
             sp.prove(tr[0] == labels[i], "survivor label")
+    if kind == PR and any(bool(ps[i] == 0) for i in range(K) if dead[i]):
+        sp.cover("zero_prob_dead")
     # (iii) renormalisation by the surviving mass
     if kind == PR and alive_idx:
         mass = vsum([ps[i] for i in alive_idx])
+        # (when the survivors carry no mass at all there is nothing to redistribute: only (i), (ii) apply)
         for tr, i in zip(got, alive_idx):
-            sp.prove(sp.eq(tr[0] * mass, ps[i]), "surviving probability is not p/sum(alive)")
-        sp.prove(sp.eq(vsum([tr[0] for tr in got]), 1), "surviving probabilities do not sum to 1")
+            sp.prove(b_or(sp.eq(mass, 0), sp.eq(tr[0] * mass, ps[i])), "surviving probability is not p/sum(alive)")
+        sp.prove(b_or(sp.eq(mass, 0), sp.eq(vsum([tr[0] for tr in got]), 1)), "surviving probabilities do not sum to 1")
     # (iv) a Player 2 state that is still pointed at from the initial state keeps everything
     if any(tr[1] == pidx for tr in got):
         sp.prove(states[pidx].next_states == p2_orig, "Player 2 neighbour lost a transition")
